@@ -193,7 +193,8 @@ type Obs struct {
 	Log    string
 	Snap   *Snapshot
 	EnvCoq []string
-	Events []string // typed settlement events in order: "settled:t:u" "cancel:t:u" "setrecipients:t:u"
+	Events []string // typed settlement events in order: "record:t:u" "settled:t:u" "cancel:t:u" "setrecipients:t:u"
+	Gas    int64
 }
 
 type Exec struct {
@@ -517,13 +518,14 @@ func (e *Exec) Run() []Obs {
 				ts.Fee, ts.Gas = settlementFee(ev.Msgs)
 			}
 			r := c.Deliver(ts)
-			o := Obs{Kind: "tx", Class: r.Class(), Log: r.Log}
+			o := Obs{Kind: "tx", Class: r.Class(), Log: r.Log, Gas: r.GasUsed}
 			if r.Class() == "ok" {
-				for _, m := range ev.Msgs {
-					if m.Kind == "create_tenant" || m.Kind == "create_tenant_mc" {
-						for _, x := range eventsOfType(r.Events, "message") {
-							_ = x
-						}
+				for _, x := range r.Events {
+					switch {
+					case strings.HasSuffix(x.Type, ".EventRecord"):
+						o.Events = append(o.Events, "record:"+unq(attr(x, "tenant"))+":"+unq(attr(x, "utxr_id")))
+					case strings.HasSuffix(x.Type, ".EventCancel"):
+						o.Events = append(o.Events, "cancel:"+unq(attr(x, "tenant"))+":"+unq(attr(x, "utxr_id")))
 					}
 				}
 			}
@@ -543,7 +545,7 @@ func (e *Exec) Run() []Obs {
 				switch {
 				case strings.HasSuffix(x.Type, "EventSettled"):
 					evs = append(evs, "settled:"+unq(attr(x, "tenant"))+":"+unq(attr(x, "utxr_id")))
-				case strings.HasSuffix(x.Type, "settlement.EventCancel"):
+				case strings.HasSuffix(x.Type, ".EventCancel"):
 					evs = append(evs, "cancel:"+unq(attr(x, "tenant"))+":"+unq(attr(x, "utxr_id")))
 				case strings.HasSuffix(x.Type, "EventSetRecipients"):
 					evs = append(evs, "setrecipients:"+unq(attr(x, "tenant"))+":"+unq(attr(x, "utxr_id")))
